@@ -48,8 +48,12 @@ func genTunSide(t *rapid.T, label string) TunSide {
 		s.Early = rapid.SampledFrom([]int{1, 10, 100, 1500, 4096, 20000}).Draw(t, label+"earlyn")
 	}
 	n := rapid.IntRange(0, 5).Draw(t, label+"nw")
+	sizes := tunSizes
+	if vstat.Thorough() {
+		sizes = append(append([]int{}, tunSizes...), 1<<20, 1<<20+1, 4<<20)
+	}
 	for i := 0; i < n; i++ {
-		s.Writes = append(s.Writes, rapid.SampledFrom(tunSizes).Draw(t, label+"w"))
+		s.Writes = append(s.Writes, rapid.SampledFrom(sizes).Draw(t, label+"w"))
 		g := 0
 		if rapid.IntRange(0, 3).Draw(t, label+"gate") == 0 {
 			g = 1
